@@ -151,6 +151,20 @@ class ImplWorld:
             extra = ' lists=' + ' + '.join(x.name for x in o.reactants) + ' -> ' + ' + '.join(x.name for x in o.products)
         return self._ret(o, extra)
 
+    def op_split(self, h):
+        c = self._obj(h)
+        try:
+            parts = list(c.split())
+        except Exception as e:
+            r = _err(e)
+            e = None
+            return 'split ' + r
+        out = []
+        for p in parts:
+            hh, created = self._take(p)
+            out.append('h%d:%s' % (hh, 'new' if created else 'old'))
+        return 'split ' + ' '.join(out)
+
     def op_drop(self, h):
         self.held.pop(int(h[1:]), None)
         return 'ok'
